@@ -193,7 +193,9 @@ impl<'a> Gen<'a> {
         // const and mutable targets of several scalar types, with the value written as a literal,
         // a variable and a negated literal (each accepted without a type diagnostic)
         let konst = self.r.bool();
-        let (cname, mname, values): (&str, &str, &[&str]) = match self.r.below(5) {
+        let (cname, mname, values): (&str, &str, &[&str]) = match self.r.below(7) {
+            5 => ("kd", "d", &["20ns", "d", "2.5us"]),
+            6 => ("kc", "mc", &["mc"]),
             0 => ("k", "i", &["2", "-3", "i", "0x1F"]),
             1 => ("ku", "mu", &["2", "0", "0xFF", "mu"]),
             2 => ("ku8", "mu8", &["2", "1", "mu8"]),
@@ -307,7 +309,7 @@ fn build(seed: u64) -> Prog {
     if stdlib {
         text.push_str("include \"stdgates.inc\";\n");
     }
-    text.push_str("qubit q0;\nqubit q1;\nqubit[3] qr;\nqubit[1] q1r;\nbit c;\nbit[2] cr;\nint i;\nconst int k = 1;\nuint mu;\nconst uint ku = 1;\nuint[8] mu8;\nconst uint[8] ku8 = 1;\nconst float kf = 1.5;\nbool mb;\nconst bool kb = true;\nfloat f;\nduration d;\nangle a;\n");
+    text.push_str("qubit q0;\nqubit q1;\nqubit[3] qr;\nqubit[1] q1r;\nbit c;\nbit[2] cr;\nint i;\nconst int k = 1;\nuint mu;\nconst uint ku = 1;\nuint[8] mu8;\nconst uint[8] ku8 = 1;\nconst float kf = 1.5;\nbool mb;\nconst bool kb = true;\nfloat f;\nduration d;\nangle a;\nconst duration kd = 10ns;\ncomplex mc;\nconst complex kc = 1.5im;\n");
     // user gates with 0-4 parameters and 1-4 qubits
     let ng = g.r.below(3);
     for n in 0..ng {
@@ -350,18 +352,20 @@ fn build(seed: u64) -> Prog {
     // return at global scope / inside a def
     if g.r.chance(1, 4) {
         line_starts.push(text.len());
-        text.push_str("return;\n");
+        let form = *g.r.pick(&["return;", "return;", "return 1;", "return i;", "return (i);", "return f;"]);
+        text.push_str(&format!("{form}\n"));
         stmts.push(St {
-            text: "return;".into(),
+            text: form.into(),
             expect: vec!["ReturnInGlobalScopeError"],
-            rule: "return/global".into(),
+            rule: format!("return/global/{}", if form == "return;" { "bare" } else { "with-value" }),
         });
     }
     if g.r.chance(1, 4) {
         line_starts.push(text.len());
-        text.push_str("def with_return() -> int { return 1; }\n");
+        let form = *g.r.pick(&["def with_return() -> int { return 1; }", "def with_return() { return; }", "def with_return() -> int { if (true) { return 2; } return 1; }"]);
+        text.push_str(&format!("{form}\n"));
         stmts.push(St {
-            text: "def with_return() -> int { return 1; }".into(),
+            text: form.into(),
             expect: vec![],
             rule: "return/in-def".into(),
         });
